@@ -362,7 +362,41 @@ def judge_emitted(got, exc, row):
         return "an emitted record is answered with %s instead of a row" % got[1], got
     back = decoded_values(got)
     if not wire.same(back, row):
-        return "round trip returns a different row", back
+        td = text_difference(row, back)
+        return "round trip returns a different row", (back if td is None else {"decoded": back, "first_text_difference": td})
+    return None
+
+
+def code_points(s):
+    return [hex(ord(ch)) for ch in s]
+
+
+def text_difference(sent, got, path="row"):
+    """Text is a sequence of code points and nothing else: the first place where the decoded row holds a text (value
+    or map key) with other code points than the row that was serialised, shown as code points -- two strings that
+    print alike ('\u00e9' and 'e\u0301') are different values of the domain.  None when the difference is elsewhere."""
+    if isinstance(sent, str) and isinstance(got, str):
+        return None if sent == got else {"at": path, "sent_code_points": code_points(sent), "decoded_code_points": code_points(got)}
+    if isinstance(sent, (list, tuple)) and isinstance(got, (list, tuple)) and len(sent) == len(got):
+        for i, (a, b) in enumerate(zip(sent, got)):
+            d = text_difference(a, b, "%s[%d]" % (path, i))
+            if d is not None:
+                return d
+        return None
+    if isinstance(sent, dict) and isinstance(got, dict):
+        ks, kg = list(sent.keys()), list(got.keys())
+        if ks != kg:
+            for i, a in enumerate(ks):
+                b = kg[i] if i < len(kg) else None
+                if a != b:
+                    return {"at": "%s key #%d" % (path, i), "sent_code_points": code_points(a),
+                            "decoded_code_points": code_points(b) if isinstance(b, str) else None,
+                            "sent_keys": len(ks), "decoded_keys": len(kg)}
+            return None
+        for k in ks:
+            d = text_difference(sent[k], got[k], "%s[%s]" % (path, "+".join(code_points(k)) or "''"))
+            if d is not None:
+                return d
     return None
 
 
@@ -939,7 +973,10 @@ def kinds_of(v, acc):
             kinds_of(x, acc)
     elif isinstance(v, dict):
         acc.add("dict")
-        for x in v.values():
+        for k, x in v.items():
+            if isinstance(k, str) and len(k) <= 64:
+                for tr in text_traits(k):
+                    acc.add("key:" + tr)
             kinds_of(x, acc)
     else:
         acc.add(type(v).__name__)
@@ -954,6 +991,9 @@ def kinds_of(v, acc):
             acc.add("int:64-bit-extreme")
         if isinstance(v, str) and not v.isascii():
             acc.add("str:non-ascii")
+        if isinstance(v, str) and len(v) <= 64:
+            for tr in text_traits(v):
+                acc.add("str:" + tr)
     return acc
 
 
@@ -2754,6 +2794,166 @@ def lookalike_cases():
                 yield {"kind": "row", "row": [[1, [v, None]], {"a": {"b": v}}], "why": "tag-lookalike-nested", "light": True}
 
 
+# --------------------------------------------------------------------------- text is an opaque sequence of code points
+#
+# The property's domain is "text" (empty and multi-byte): a text value is its sequence of Unicode scalar values and
+# nothing else.  Code that treats "equivalent" texts as the same -- Unicode normalisation (NFC / NFD / NFKC / NFKD), case
+# mapping, stripping, newline translation, dropping a byte-order mark / zero-width / control / NUL characters, un-escaping
+# -- returns a different row.  None of the texts below is a fixed point of all of those rewrites, each is written with
+# explicit escapes (the file itself holds ASCII only here, so no editor or tool can normalise the inputs), and the
+# comparison is `==` on `str`, which compares code points.  `unicodedata` is used by the harness ONLY to measure the
+# input distribution (which rewrites a generated text is not a fixed point of), never to build or compare a value.
+
+OPAQUE_TEXTS = [
+    # canonical composition: a base letter + combining mark(s) that have a precomposed form (NFC rewrites them)
+    "e\u0301", "A\u030a", "o\u0308\u0304", "cafe\u0301", "n\u0303o", "D\u0307\u0323", "\u1e0b\u0323", "q\u0307\u0323", "q\u0323\u0307",
+    "a\u0301\u0301", "\u0301", "\u0301e", "\u0627\u0653", "a\u0328\u0301",
+    # canonical decomposition: precomposed forms (NFD rewrites them), Hangul syllables
+    "\xe9", "\xc5", "\u1e69", "\u01d6", "\uac00", "\ud55c\uae00", "\xf1",
+    # singletons: one code point canonically equivalent to ANOTHER single code point (NFC and NFD both rewrite them)
+    "\u212b", "\u2126", "\u212a", "\u2000", "\u2001", "\u0340", "\u0341", "\u0343", "\u0374", "\u037e", "\u0387", "\u1f71", "\u1fbe", "\u2329\u232a",
+    "\uf900", "\ufa0e\uf9ff", "\U0002f800", "10 \u2126 resistor",
+    # composition exclusions: NFC DEcomposes these
+    "\u0958", "\u0dda", "\ufb1d", "\ufb2a", "\u0f43", "\u2adc", "\U0001d15e",
+    # conjoining Hangul jamo (L V, L V T, a syllable followed by a trailing consonant)
+    "\u1100\u1161", "\u1112\u1161\u11ab", "\uac00\u11a8", "\u1100\u1161\u11a8\u1100\u1173\u11af", "\u1100", "\u11a8",
+    # compatibility forms (NFKC / NFKD): ligatures, full-width / half-width, super/subscripts, fractions, circled, squared, no-break space
+    "\ufb01", "\ufb03", "\ufb06", "\u0132", "\uff21\uff42\uff11", "\uff01", "\uff76\uff9e", "\xb2", "\u2075", "\u2081", "\xbd", "\u2460", "\u2122", "\u2121",
+    "\u33a1", "\u3392", "\xa0", "a\xa0b", "\u3000", "\u2002\u2003", "\u202f", "\xb5", "\u017f", "\u1e9b", "\u2025", "\u2026", "\ufdfa", "\u2163", "\xaa",
+    "\u02b0", "\u1d2c", "\u3131", "\uffa1", "\u320e", "\U0001d400", "\U0001f100", "\ufe10", "\ufe64",
+    # case: upper, lower, title, mixed; characters whose case mapping changes length or is context dependent
+    "A", "Ab", "aB", "ABC", "Hello World", "Stra\xdfe", "\xdf", "\u1e9e", "SS", "\u0130", "\u0131", "i\u0307", "\u01c5", "\u01c4", "\u01c6",
+    "\u03a3", "\u03c2", "\u03c3", "\u1f88", "\u0149", "\ufb00", "\u0390", "\xc9", "\u0401", "\u0451", "\u10d0", "\u1c90", "\u13a0", "\uab70", "\U00010400", "\U00010428",
+    # white space at either end / inside, the newline family, other separators
+    " a", "a ", " a ", "  ", "\ta", "a\t", "a\n", "\na", "\n", "\r", "\r\n", "a\r\nb", "a\rb", "a\nb", "a\n\rb", "a\r\n", "\r\na", "a\r\r\nb", "a  b", "a \n",
+    "\x0b", "\x0c", "a\x0b", "\x1c", "\x1d\x1e\x1f", "\x85", "a\x85b", "\u2028", "\u2029", "a\u2028b", "\u1680", "\u180e", "\u205f", "\u2007 1",
+    # byte-order mark, zero-width and other invisible / default-ignorable characters, bidi controls, variation selectors, tags
+    "\ufeff", "\ufeffa", "a\ufeff", "\ufeff\ufeff", "a\ufeffb", "\ufffe", "\u200b", "a\u200bb", "\u200ba", "a\u200b", "\u200c", "\u200d", "a\u200db",
+    "\U0001f468\u200d\U0001f469\u200d\U0001f467", "\u2060", "\u2061", "\xad", "co\xadop", "\u034f", "\u061c", "\u200e", "\u200f", "\u202a\u202c", "\u202e", "\u2066\u2069",
+    "\u2708\ufe0f", "\u2708\ufe0e", "\ufe0f", "\ufe00", "\U000e0100", "\U000e0001", "\U000e0061", "\u115f", "\u3164", "\u17b4", "\U0001d173",
+    # NUL and other C0 / C1 controls: leading, trailing, in the middle
+    "\x00", "a\x00", "\x00a", "a\x00b", "\x00\x00", "abc\x00\x00", "\x01", "\x07", "\x08", "a\x08", "\x1b", "\x1b[0m", "\x7f", "a\x7f", "\x80", "\x9f", "\x1a", "a\x1a", "\x04",
+    # boundaries of the encoding forms, noncharacters, the replacement character, private use, unassigned
+    "\x7f\x80", "\u07ff\u0800", "\ud7ff", "\ue000", "\uf8ff", "\ufdd0", "\ufdef", "\uffff", "\ufffd", "a\ufffd", "\ufffc", "\U00010000", "\U0001fffe", "\U0001ffff",
+    "\U0010fffd", "\U0010fffe", "\U0010ffff", "\U000f0000", "\u0378", "\U000e0080", "\U0003134b",
+    # escapes a layer might undo, quoting, text that reads as a number / keyword / padded number
+    "&amp;", "&#233;", "%20", "%C3%A9", "a%00", "\\n", "\\u00e9", "\\x00", "\\", "a\\", "\"", "'", "\"a\"", "'a'", "``", "a\"b", "+1", " 1", "1 ", "01", "1.0", "1e3", "-0", "0x10",
+    "true", "True", "None", "null", "nan", "NaN", "Infinity", "\uff11", "\u0661", "b'a'", "b\"\"",
+]
+
+# texts a rewrite would MERGE: members of a group are different values of the domain (different code points)
+OPAQUE_GROUPS = [
+    ["\xe9", "e\u0301"], ["\xc5", "A\u030a", "\u212b"], ["\u03a9", "\u2126"], ["K", "\u212a", "k"], ["\uac00", "\u1100\u1161"], ["\uac01", "\uac00\u11a8", "\u1100\u1161\u11a8"],
+    ["q\u0307\u0323", "q\u0323\u0307"], ["\u1e69", "s\u0323\u0307", "s\u0307\u0323", "\u1e63\u0307", "\u1e61\u0323"], ["\u0958", "\u0915\u093c"],
+    ["\ufb01", "fi"], ["\uff21", "A", "a"], ["\xb5", "\u03bc"], ["\xa0", " ", "\u2002", "\u2000"], ["\u017f", "s", "S"], ["\xdf", "ss", "SS", "\u1e9e"],
+    ["\u0131", "i", "\u0130", "I", "i\u0307"], ["\u03c3", "\u03c2", "\u03a3"], ["a", " a", "a ", " a ", "a\n", "\ta"], ["a\r\nb", "a\nb", "a\rb", "a\u2028b", "a\x85b"],
+    ["a", "a\x00", "\x00a", "a\x00\x00"], ["", "\x00", "\ufeff", "\u200b", " ", "\u200d", "\xad"], ["a", "\ufeffa", "a\ufeff"], ["ab", "a\u200bb", "a\u200db", "a\xadb", "a\ufeffb", "a\x00b"],
+    ["\u2708", "\u2708\ufe0f", "\u2708\ufe0e"], ["1", "\uff11", "\u0661", " 1", "01", "1 ", "+1"], ["\ufffd", "\ufffe", "\uffff", "\ufdd0"], ["e", "e\u0301", "\u0301e", "\u0301"],
+    ["&", "&amp;"], ["\n", "\\n", "\r", "\r\n"], ["abc", "ABC", "Abc", "aBC"],
+]
+
+_OPAQUE_RANGES = [(0x00, 0x20), (0x7F, 0xA0), (0xA0, 0x100), (0x300, 0x370), (0x1100, 0x1200), (0x1E00, 0x2000), (0x2000, 0x2070), (0x2100, 0x2190), (0xAC00, 0xAC40),
+                  (0xF900, 0xFA10), (0xFB00, 0xFB50), (0xFE00, 0xFE10), (0xFEFF, 0xFF00), (0xFF00, 0xFFF0), (0xFFF0, 0x10000), (0x41, 0x7B), (0x1D400, 0x1D440), (0xE0000, 0xE0080)]
+
+
+def opaque_text(rng):
+    """Random text built from the pieces above and from code points of the ranges where the rewrites act."""
+    r = rng.random()
+    if r < 0.35:
+        return rng.choice(OPAQUE_TEXTS)
+    if r < 0.45:
+        return rng.choice(rng.choice(OPAQUE_GROUPS))
+    parts = []
+    for _ in range(rng.randint(1, 4)):
+        q = rng.random()
+        if q < 0.4:
+            parts.append(rng.choice(OPAQUE_TEXTS))
+        elif q < 0.6:
+            parts.append(rng.choice("abcXYZ e"))
+        else:
+            lo, hi = rng.choice(_OPAQUE_RANGES)
+            parts.append("".join(chr(rng.randrange(lo, hi)) for _ in range(rng.randint(1, 3))))
+    return "".join(parts)
+
+
+def opaque_value(rng, depth=2):
+    """An opaque text at a random place: alone, in a list, as a map value, as a map key, nested."""
+    t = opaque_text(rng)
+    if depth <= 0 or rng.random() < 0.4:
+        return t
+    q = rng.random()
+    if q < 0.35:
+        xs = [gen.gen_scalar(rng) for _ in range(rng.randint(0, 2))]
+        xs.insert(rng.randint(0, len(xs)), opaque_value(rng, depth - 1))
+        return xs
+    if q < 0.6:
+        return {rng.choice(["k", "", "key"]): opaque_value(rng, depth - 1)}
+    if q < 0.85:
+        return {t: gen.gen_scalar(rng), opaque_text(rng): opaque_value(rng, depth - 1)}
+    g = rng.choice(OPAQUE_GROUPS)
+    return {k: i for i, k in enumerate(g)} if rng.random() < 0.5 else list(g)
+
+
+def text_traits(s):
+    """Which rewrites the text is NOT a fixed point of (measured for the evidence only)."""
+    import unicodedata
+
+    out = []
+    for form in ("NFC", "NFD", "NFKC", "NFKD"):
+        if unicodedata.normalize(form, s) != s:
+            out.append("not-" + form)
+    if s.lower() != s or s.upper() != s or s.casefold() != s:
+        out.append("cased")
+    if s.strip() != s:
+        out.append("strippable")
+    if "\r" in s or len(s.splitlines()) > 1 or (s and s.splitlines() and s.splitlines()[0] != s):
+        out.append("newline-family")
+    if "\x00" in s:
+        out.append("NUL")
+    if any(unicodedata.category(ch) in ("Cc", "Cf", "Cn", "Co") for ch in s):
+        out.append("control/format/unassigned/private")
+    return out
+
+
+def opaque_text_cases():
+    """Every opaque text at top level (alone, with full alteration coverage; between two other columns), nested in a list
+    and as a map value, as a map key, in a tuple column; every pair of texts a rewrite would merge side by side in one row,
+    as two elements of one list and as two keys of one map; a few through every kind of row object and class variant."""
+    seen = set()
+    texts = [t for t in OPAQUE_TEXTS + [t for g in OPAQUE_GROUPS for t in g] if not (t in seen or seen.add(t))]
+    for i, t in enumerate(texts):
+        yield {"kind": "row", "row": [t], "why": "opaque-text-top"}
+        yield {"kind": "row", "row": [1, t, None], "why": "opaque-text-top", "light": True}
+        yield {"kind": "row", "row": [[t], {"k": t}], "why": "opaque-text-nested", "light": True}
+        yield {"kind": "row", "row": [{t: 1}], "why": "opaque-text-key", "light": True}
+        if i % 3 == 0:
+            yield {"kind": "row", "row": [[None, [t, {"m": [t]}]], t], "why": "opaque-text-nested", "light": True, "tuples": i % 2 == 0}
+            yield {"kind": "row", "row": [{"a": {t: {t: [t]}}}], "why": "opaque-text-key", "light": True}
+            yield {"kind": "row", "row": ["plain ascii", t, "\u65e5\u672c"], "why": "opaque-text-top", "light": True}
+    for g in OPAQUE_GROUPS:
+        yield {"kind": "row", "row": list(g), "why": "opaque-text-group", "light": True}
+        yield {"kind": "row", "row": [list(g), {k: i for i, k in enumerate(g)}], "why": "opaque-text-group", "light": True}
+        yield {"kind": "row", "row": [{k: k for k in reversed(g)}], "why": "opaque-text-group", "light": True}
+    picks = ["e\u0301", "\u212b", "\u1100\u1161", "\ufb01", " a ", "a\r\nb", "\ufeffa", "a\x00", "Stra\xdfe", "\uac00"]
+    for cls in (None, "tuples_only", "base"):
+        for obj in ("decoded", "slotted", "plain", "dict", "frame"):
+            if obj in ("dict", "frame") and cls is not None:
+                continue
+            for t in picks:
+                c = {"kind": "row", "row": [t, [t], {t: t}], "obj": obj, "why": "opaque-text-object", "light": True}
+                if cls:
+                    c["cls"] = cls
+                yield c
+
+
+def opaque_seq_cases():
+    """Texts a rewrite would merge, serialised one after the other in one process (a cache or an interning table keyed
+    on the normalised / case-folded / stripped text hands the first one's bytes to the second)."""
+    for g in OPAQUE_GROUPS:
+        yield {"kind": "seq", "why": "opaque-text-merge", "rows": [[t] for t in g] + [[g[0]]] + [[t] for t in reversed(g)]}
+        yield {"kind": "seq", "why": "opaque-text-merge", "rows": [[{t: [t]}] for t in g] + [[{g[0]: [g[0]]}]]}
+
+
 def exhaustive_cases():
     vals = SCALARS + small_containers() + marker_containers()
     yield {"kind": "row", "row": []}
@@ -2836,6 +3036,8 @@ def random_row(rng, big=False):
             v = rng.choice(SCALARS)
         elif q < 0.3:
             v = rng.choice(small_containers())
+        elif q < 0.42:
+            v = opaque_value(rng)  # text that is not a fixed point of normalisation / case mapping / stripping / ..., at any place
         else:
             v = gen.gen_pyval(rng, rng.choice([1, 2, 3, 4]))
         row.append(v)
@@ -3119,8 +3321,13 @@ def run(ctx):
     ctx.note("tag_lookalikes", "%d rows over %d look-alike values; marker literals `__word__` found in the source text of orso/row.py and "
              "compiled.pyx on this run: %s%s; only ['__datetime__', x] is excluded" % (len(look), len(lookalike_values()), json.dumps(hm), " (%s)" % hnote if hnote else ""))
     evaluate(ctx, look)
+    opq = list(opaque_text_cases())
+    ctx.note("opaque_text", "%d rows over %d texts that are not fixed points of NFC/NFD/NFKC/NFKD, case mapping, stripping, newline translation or the "
+             "removal of BOM / zero-width / control / NUL characters (top level, nested, as map keys, %d groups of texts such a rewrite would merge); "
+             "texts are compared by code points (str ==), the harness and the model never normalise" % (len(opq), len(set(OPAQUE_TEXTS)), len(OPAQUE_GROUPS)))
+    evaluate(ctx, opq)
     evaluate(ctx, list(unguarded_cases()) + list(float32_cases()) + list(family_cases()) + reserved_cases(rng) + refuse_cases() + glue_cases())
-    evaluate(ctx, seq_cases(rng, ctx.scale(60, 1500)))
+    evaluate(ctx, seq_cases(rng, ctx.scale(60, 1500)) + list(opaque_seq_cases()))
     evaluate(ctx, obj_cases(ctx, rng))
     evaluate(ctx, new_cases(rng) + input_cases())
     conc_phase(ctx)
